@@ -77,6 +77,7 @@ def codingParams (bs : Bytes) (i scod : Nat) : Option (List Nat × Nat) :=
   match u8 bs i, u8 bs (i + 1), u8 bs (i + 2), u8 bs (i + 3), u8 bs (i + 4) with
   | some levels, some cbw, some cbh, some style, some transform =>
     if cbw > 8 ∨ cbh > 8 ∨ cbw + cbh > 8 then none
+    else if levels > 32 then none      -- T.800 Table A.15 (commit FIXME-LEVELS)
     else if scod % 2 = 1 then
       match rdN bs (i + 5) (levels + 1) with
       | some pr => some ([levels, cbw, cbh, style, transform] ++ pr, 5 + (levels + 1))
